@@ -377,6 +377,7 @@ func (n *Net) RoundTrip(req *http.Request) (*http.Response, error) {
 			}
 		}()
 		h.ServeHTTP(w, sreq)
+		w.handlerReturned()
 		w.finish()
 		cancel()
 		close(c.finished)
@@ -498,15 +499,29 @@ func (c *Conn) Done() bool {
 // ---- server side ---------------------------------------------------------------------------------
 
 type respWriter struct {
-	c      *Conn
-	hdr    http.Header
-	inCall int32 // >0 while a Write or Flush is in progress (they contain scheduler points)
+	c        *Conn
+	hdr      http.Header
+	inCall   int32 // >0 while a Write or Flush is in progress (they contain scheduler points)
+	returned int32 // 1 once ServeHTTP has returned: net/http forbids any further use of the writer
+}
+
+// handlerReturned marks the end of ServeHTTP.  net/http then finishes the response (flushes and
+// recycles the bufio.Writer, may reuse the connection): a Write or Flush that is still in progress
+// on another goroutine, or that starts later, races with that in a real server.
+func (w *respWriter) handlerReturned() {
+	atomic.StoreInt32(&w.returned, 1)
+	if atomic.LoadInt32(&w.inCall) > 0 {
+		w.c.n.s.addLibEvent(fmt.Sprintf("http.ResponseWriter used after the handler returned: the handler of c%d %s %s returned while a Write/Flush by another goroutine was in progress", w.c.ID, w.c.Method, w.c.Path))
+	}
 }
 
 // enter/leave detect concurrent use of one ResponseWriter: net/http's is not safe for concurrent
 // Write/Flush (they share one bufio.Writer), so two calls overlapping in time are a data race in a
 // real server even though the simulated writer itself would survive it.
 func (w *respWriter) enter(what string) {
+	if atomic.LoadInt32(&w.returned) != 0 && !w.c.n.s.dead.Load() {
+		w.c.n.s.addLibEvent(fmt.Sprintf("http.ResponseWriter used after the handler returned: %s on c%d %s %s [%s]", what, w.c.ID, w.c.Method, w.c.Path, TopLibFrame(string(debug.Stack()))))
+	}
 	if atomic.AddInt32(&w.inCall, 1) > 1 {
 		w.c.n.s.addLibEvent(fmt.Sprintf("concurrent use of http.ResponseWriter: %s entered while another Write/Flush on c%d %s %s is in progress", what, w.c.ID, w.c.Method, w.c.Path))
 	}
